@@ -33,7 +33,8 @@ def ensure_wt():
         rc, out = sh("git -C /repo worktree add --detach %s HEAD" % WT)
         assert rc == 0, out
     else:
-        sh("git -C %s checkout -q --detach %s && git -C %s reset -q --hard" % (WT, head(), WT))
+        rc, out = sh("git -C %s reset -q --hard && git -C %s checkout -q --detach %s && git -C %s reset -q --hard" % (WT, WT, head(), WT))
+        assert rc == 0, out
 
 
 def head():
